@@ -544,22 +544,30 @@ def misc_block(_b):
             eng.prove(f"{P}/PointIsotherm.has_branch/ensures.nonempty/{cfg}",
                       branch in (None, 'all') or iso.has_branch(branch) == (len(rows) > 0))
         obs += collect(eng, run, base, cfg)
-    # get_iso_loading_and_pressure_ordered: 'des' data reversed (both arrays), 'ads' as stored
+    # get_iso_loading_and_pressure_ordered -- what its callers rely on: the points of the requested branch, pressure and loading
+    # kept together, in order of increasing pressure (an adsorption branch as stored; a desorption branch, which is measured
+    # from high to low pressure, reversed -- and left as it is when it already runs from low to high, as the points generated
+    # by a model isotherm do)
     import pygaps.utilities.pygaps_utilities as PU
     base = f"{P}/pygaps_utilities.get_iso_loading_and_pressure_ordered"
-    for branch in ('ads', 'des'):
+    for branch, stored in (('ads', 'low_to_high'), ('des', 'high_to_low'), ('des', 'low_to_high')):
         eng = sx.Engine()
 
         def run():
             iso = I.make_iso(eng, _lab(), n=4, frame=True, branch=[0, 0, 1, 1])
+            ps = iso.data_raw.cols['pressure']
+            if branch == 'des':
+                eng.assume(ps[2] > ps[3] if stored == 'high_to_low' else ps[2] < ps[3])
+            else:
+                eng.assume(ps[0] < ps[1])
             pr, lo = PU.get_iso_loading_and_pressure_ordered(
                 iso, branch, {'loading_basis': 'molar', 'loading_unit': 'mmol'}, {'pressure_mode': 'absolute', 'pressure_unit': 'bar'})
-            rows = [0, 1] if branch == 'ads' else [3, 2]
+            rows = [0, 1] if branch == 'ads' else ([3, 2] if stored == 'high_to_low' else [2, 3])
             wp = [iso.data_raw.cols['pressure'][i] for i in rows]
             wl = [iso.data_raw.cols['loading'][i] for i in rows]
-            eng.prove(f"{base}/ensures.des_reversed_ads_as_stored/{branch}",
+            eng.prove(f"{base}/ensures.branch_points_in_increasing_pressure_order/{branch}|stored_{stored}",
                       I.conj([('p', I.same_value(list(pr), wp)), ('l', I.same_value(list(lo), wl))]))
-        obs += collect(eng, run, base, branch)
+        obs += collect(eng, run, base, f"{branch}|stored_{stored}")
     return obs
 
 
